@@ -280,6 +280,15 @@ def build_item(spec, vacuity=False, unit_calls=None):
         orig = text[it.attr_start:hi]
         out_start = region_start
         report["dropped_attrs"] = "" if spec.keep_attrs else it.attrs.strip()
+        for (cnt, rx, repl, rkind) in spec.rewrites:
+            region = text[it.start:hi]
+            ms = list(re.finditer(rx, region))
+            if cnt is not None and len(ms) != cnt:
+                raise LostAnchor("%s: rewrite /%s/ matched %d times, expected %d" % (spec.locator, rx, len(ms), cnt))
+            for mm in ms:
+                new = mm.expand(repl)
+                add(it.start + mm.start(), it.start + mm.end(), [Seg(new, "rewrite")])
+                report["rewrites"].append({"kind": rkind, "from": mm.group(0), "to": new})
     elif kind == "fn":
         fp = FnParts(src, it)
         lo, hi = it.start, it.end
@@ -405,7 +414,7 @@ def build_item(spec, vacuity=False, unit_calls=None):
         "file": src.name,
         "lines": [src.line_of(lo), src.line_of(hi)],
         "sha256_repo_text": hashlib.sha256(orig.encode()).hexdigest(),
-        "name": spec.rename or (it.name if kind in ("fn", "struct", "enum") else spec.sig.split("(")[0].split()[-1].split("<")[0]),
+        "name": spec.rename or (it.name if kind in ("fn", "struct", "enum") else re.match(r"\s*fn\s+(\w+)", spec.sig).group(1)),
         "props": spec.props,
     })
     # round trip: undo the edits on the produced text and compare with the repo text
